@@ -2,10 +2,12 @@
 //! wrote) and record the directives they issued as static program files.
 
 pub mod broker;
+pub mod extend;
 pub mod util;
 pub mod wire;
 
 mod fam_arena;
+mod fam_behind;
 mod fam_codec;
 mod fam_fault;
 mod fam_flow;
@@ -186,6 +188,8 @@ impl Stats {
 pub enum Sp {
     /// What a conformant broker answers (resume asked and session known).
     Conformant,
+    /// Session present exactly when the client asked to resume (clean start 0).
+    IfAsked,
     Fixed(bool),
 }
 
@@ -283,6 +287,13 @@ pub struct Drv {
     pub count: usize,
     /// Allow `rx_split` to cut inbound bytes at random points.
     pub split_rx: bool,
+    /// Queue what a resuming broker sends after the CONNACK instead of sending it at once.
+    pub hold_after: bool,
+    /// Static replay: parse the bytes of `rx` directives as server packets so that the broker
+    /// knows what the client has already been given.
+    pub observe_rx: bool,
+    /// Never let time pass while a write or flush is waiting for its decision: `go` first.
+    pub settle_writes: bool,
 }
 
 pub const TICK_CAP: u64 = 1_000_000_000_000;
@@ -310,6 +321,9 @@ impl Drv {
             tick_total: 0,
             count: 0,
             split_rx: true,
+            hold_after: false,
+            observe_rx: false,
+            settle_writes: false,
         }
     }
 
@@ -376,6 +390,11 @@ impl Drv {
             self.starved = false;
         }
         self.pump();
+        if self.observe_rx && kind == "rx" {
+            if let Some(bytes) = line.split(' ').nth(1).and_then(crate::parse::parse_hex) {
+                self.broker.on_server_bytes(&bytes);
+            }
+        }
     }
 
     pub fn interp(&self) -> &Interp {
@@ -475,6 +494,10 @@ impl Drv {
         if self.tick_total + us > TICK_CAP {
             return false;
         }
+        if self.settle_writes && matches!(self.pend, Some('w' | 'f')) {
+            // The last I/O event was `wp` or `fp`: writes complete without delay.
+            self.go();
+        }
         self.tick_total += us;
         self.x(&format!("tick {us}"));
         true
@@ -495,6 +518,7 @@ impl Drv {
         }
         let sp = match spec.sp {
             Sp::Conformant => self.broker.conformant_sp(),
+            Sp::IfAsked => !self.broker.clean_start,
             Sp::Fixed(sp) => sp,
         };
         let bytes = wire::connack(sp, spec.rc, &wire::enc_props(&spec.props));
@@ -503,8 +527,12 @@ impl Drv {
         self.go();
         let ok = self.live();
         if ok {
-            for o in &after {
-                self.send(o);
+            if self.hold_after {
+                self.broker.owed.extend(after);
+            } else {
+                for o in &after {
+                    self.send(o);
+                }
             }
         }
         ok
@@ -690,6 +718,7 @@ pub const FAMILIES: &[(&str, FamilyFn)] = &[
     ("arena", fam_arena::arena),
     ("invalid", fam_codec::invalid),
     ("reply", fam_reply::reply),
+    ("behind", fam_behind::behind),
 ];
 
 /// Only generated when asked for by name.
